@@ -1,24 +1,167 @@
 (** Property C07 — argument type checking agrees with the component-model subtype relation.
-    Statements only; every proof is [exact <lemma>].  (Work in progress: the item-level theorems are added below as
-    they are proved.) *)
-From WacV Require Import Str Types Checker SubSpec CheckerEq SubSpecProofs CheckerValue.
+    This file holds only statements; every proof is [exact <lemma>] (or a short composition of lemmas).
 
-(** The executable specification printed by the driver decides the declarative relation. *)
+    Vocabulary: [types] = model of [wac_types::Types] (Types.v); [is_subtype]/[check]/[run_checks] = model of
+    [SubtypeChecker] (Checker.v); [unfold] = arena-free tree of a kind; [SubCM] = declarative component-model
+    subtyping on trees, resource-free fragment (SubSpec.v, DESIGN A.5); [Sub eq] = the same rules plus
+    "resources are compared by the name of their alias-resolved definition" (what the checker does);
+    [decides r P] = r is [Ok] and P holds, or r is [Err _] and P does not hold (so never Panic / OutOfFuel).
+
+    Resource half of the property ("accepting all of one provider's matching exports implies the instantiation
+    validates") is out of model scope: it needs the reference validator's generative treatment of resources. *)
+From WacV Require Import Str Types C07Flags Checker SubSpec CheckerEq SubSpecProofs CheckerValue CheckerProofs CheckerTheorems.
+
+(** 0. The specification printed by the driver decides the declarative relation; on value types the relation
+       is equality of trees (invariance). *)
 Theorem spec_decision_procedure : forall a b, sub_b a b = true <-> SubCM a b.
 Proof. exact sub_b_iff. Qed.
 Print Assumptions spec_decision_procedure.
 
-(** Value and defined types are invariant: the declarative rules relate exactly equal trees. *)
 Theorem value_subtyping_is_equality : forall a b, VSub eq a b <-> a = b.
 Proof. exact VSub_eq_iff. Qed.
 Print Assumptions value_subtyping_is_equality.
 
-(** The value-level rule of the checker decides equality of the unfolded trees (aliases resolved), whatever
-    the variance; it neither panics nor runs out of fuel once the fuel covers the depth of the two types. *)
-Theorem value_rule_decides_tree_equality :
-  forall at_ bt, (t_tag at_ = t_tag bt -> at_ = bt) ->
-  forall g F k a b ta tb, (g <= F)%nat ->
-    unfold_vt g at_ a = Some ta -> unfold_vt g bt b = Some tb ->
-    decides (value_type F k at_ a bt b) (ta = tb).
-Proof. exact value_type_spec. Qed.
-Print Assumptions value_rule_decides_tree_equality.
+(** 1. Sufficient fuel: in a well-formed collection with a ranking (acyclicity), every well-formed kind has a tree
+       as soon as the fuel exceeds its rank. *)
+Theorem sufficient_fuel : forall t r, wf_types t r ->
+  forall g k, kind_ok t k -> (krank r k < g)%nat -> exists tr, unfold g t k = Some tr.
+Proof. exact unfold_total. Qed.
+Print Assumptions sufficient_fuel.
+
+(** 2. algo_iff_declarative.  Full statement:
+
+         forall at bt ra rb a b F, wf_types at ra -> wf_types bt rb -> (same tag -> same collection) ->
+           kind_ok at a -> kind_ok bt b -> krank ra a < F -> krank rb b < F ->
+           exists ta tb, unfold F at a = Some ta /\ unfold F bt b = Some tb /\
+             (resfree ta -> resfree tb -> (check F at a bt b = Ok tt <-> SubCM ta tb)).
+
+       While checker.rs compares [page_size_log2] as an [Option] ([psl_default_normalised = false]) it is FALSE of the
+       faithful model and of the code (replayed on every run: known finding "memory-default-page-size"): a memory type
+       that spells out the default page size (Some 16) and one that does not (None) are rejected in both directions
+       although they are the same core type. *)
+Theorem algo_iff_declarative_refuted : psl_default_normalised = false ->
+  exists at_ bt a b ta tb,
+    unfold 3 at_ a = Some ta /\ unfold 3 bt b = Some tb /\ resfree ta = true /\ resfree tb = true /\
+    SubCM ta tb /\ SubCM tb ta /\
+    check 3 at_ a bt b = Err EMemPage /\ check 3 bt b at_ a = Err EMemPage.
+Proof.
+  intro Hf. destruct (algo_iff_declarative_refuted_witness Hf) as [H1 [H2 [ta [tb [U1 [U2 [R1 [R2 [S1 S2]]]]]]]]].
+  exists pz_tA, pz_tB, (KModule (mkid 1 0)), (KModule (mkid 2 0)), ta, tb. repeat split; assumption.
+Qed.
+Print Assumptions algo_iff_declarative_refuted.
+
+(** PARTIAL.  What holds, on acyclic well-formed collections (two separate ones, or one and the same):
+    - the checker never panics or runs out of fuel and decides [SubX];
+    - SOUNDNESS at full strength: for resource-free kinds everything it accepts is in the component-model relation;
+    - COMPLETENESS under [pages_ok]: nothing at all once the source normalises the default page size
+      ([psl_default_normalised = true]: then this IS the full statement); until then the precise scope is "no memory
+      type of either collection spells out the default page size" ([canon_types]).  Nothing else is missing. *)
+Theorem algo_iff_declarative_partial : forall at_ bt ra rb a b F,
+  wf_types at_ ra -> wf_types bt rb -> (t_tag at_ = t_tag bt -> at_ = bt) ->
+  kind_ok at_ a -> kind_ok bt b -> (krank ra a < F)%nat -> (krank rb b < F)%nat ->
+  exists ta tb, unfold F at_ a = Some ta /\ unfold F bt b = Some tb /\
+                decides (check F at_ a bt b) (SubX ta tb) /\
+                (resfree ta = true -> resfree tb = true ->
+                 (check F at_ a bt b = Ok tt -> SubCM ta tb) /\
+                 (pages_ok at_ -> pages_ok bt -> SubCM ta tb -> check F at_ a bt b = Ok tt)).
+Proof. exact algo_iff_declarative_wf. Qed.
+Print Assumptions algo_iff_declarative_partial.
+
+(** 3. verdict_indep_of_variance (and of the memo): the accept/reject verdict is the same whatever the variance stack
+       and whatever memo satisfying the invariant the checker starts from.  (In this code an inverted check is always
+       accompanied by swapped arguments at the call site; the stack only selects the wording of diagnostics.) *)
+Theorem verdict_indep_of_variance : forall at_ bt, (t_tag at_ = t_tag bt -> at_ = bt) ->
+  nodup_types at_ -> nodup_types bt ->
+  forall g F s s' a b ta tb, (g <= F)%nat ->
+    memo_ok at_ bt (cache s) -> memo_ok at_ bt (cache s') ->
+    unfold g at_ a = Some ta -> unfold g bt b = Some tb ->
+    verdict (is_subtype F s at_ a bt b) = verdict (is_subtype F s' at_ a bt b).
+Proof. exact verdict_indep_of_variance_and_memo. Qed.
+Print Assumptions verdict_indep_of_variance.
+
+(** 4. memo_sound: if every cached pair is a true pair ([memo_ok]), the checker with that memo decides the same relation
+       as a fresh checker, the memo after the call still holds only true pairs, only grows, and the variance stack is
+       restored on acceptance. *)
+Theorem memo_sound : forall at_ bt, (t_tag at_ = t_tag bt -> at_ = bt) ->
+  nodup_types at_ -> nodup_types bt ->
+  forall g F s a b ta tb, (g <= F)%nat -> memo_ok at_ bt (cache s) ->
+    unfold g at_ a = Some ta -> unfold g bt b = Some tb ->
+    decides (fst (is_subtype F s at_ a bt b)) (SubX ta tb) /\
+    memo_ok at_ bt (cache (snd (is_subtype F s at_ a bt b))) /\
+    incl (cache s) (cache (snd (is_subtype F s at_ a bt b))) /\
+    (fst (is_subtype F s at_ a bt b) = Ok tt -> ks (snd (is_subtype F s at_ a bt b)) = ks s).
+Proof. exact is_subtype_decides. Qed.
+Print Assumptions memo_sound.
+
+(** ... and over any history of checks sharing one checker (what plug.rs, targets.rs and the graph's
+    [type_check_cache] do), among any family of collections with pairwise distinct arenas: every verdict equals the
+    verdict of a fresh checker, in particular it does not depend on the order of the preceding checks. *)
+Theorem memo_never_changes_a_verdict : forall (E : types -> Prop),
+  (forall t1 t2, E t1 -> E t2 -> t_tag t1 = t_tag t2 -> t1 = t2) -> (forall t, E t -> nodup_types t) ->
+  forall g F, (g <= F)%nat ->
+  forall l s, cache_ok E (cache s) -> Forall (check_in E g) l ->
+    map is_ok (fst (run_checks F s l))
+    = map (fun c => is_ok (check F (fst (fst c)) (snd (fst c)) (fst (snd c)) (snd (snd c)))) l
+    /\ cache_ok E (cache (snd (run_checks F s l))).
+Proof. exact run_checks_sound. Qed.
+Print Assumptions memo_never_changes_a_verdict.
+
+(** 5. sub_refl_copies: two kinds with the same tree (independently built copies, in different collections or in
+       the same one) are accepted, in both directions. *)
+Theorem sub_refl_copies : forall at_ bt, (t_tag at_ = t_tag bt -> at_ = bt) -> nodup_types at_ -> nodup_types bt ->
+  forall g F a b t, (g <= F)%nat -> unfold g at_ a = Some t -> unfold g bt b = Some t ->
+  check F at_ a bt b = Ok tt.
+Proof. exact refl_copies. Qed.
+Print Assumptions sub_refl_copies.
+
+(** 6. sub_trans: across three collections. *)
+Theorem sub_trans : forall at_ bt ct,
+  (t_tag at_ = t_tag bt -> at_ = bt) -> (t_tag bt = t_tag ct -> bt = ct) -> (t_tag at_ = t_tag ct -> at_ = ct) ->
+  nodup_types at_ -> nodup_types bt -> nodup_types ct ->
+  forall g F a b c ta tb tc, (g <= F)%nat ->
+    unfold g at_ a = Some ta -> unfold g bt b = Some tb -> unfold g ct c = Some tc ->
+    check F at_ a bt b = Ok tt -> check F bt b ct c = Ok tt -> check F at_ a ct c = Ok tt.
+Proof. exact trans3. Qed.
+Print Assumptions sub_trans.
+
+(** Non-vacuity: a concrete pair of well-formed ranked collections; instance {f,g} is accepted where {f} is expected,
+    not conversely; the specification agrees. *)
+Definition c07_f : str := [102]. Definition c07_g : str := [103].
+Definition c07_tA : types :=
+  mktypes 1 [] [] [mkfunc [] None false]
+          [mkif None [] [(c07_f, KFunc (mkid 1 0))]; mkif None [] [(c07_f, KFunc (mkid 1 0)); (c07_g, KFunc (mkid 1 0))]] [] [].
+Definition c07_tB : types :=
+  mktypes 2 [] [] [mkfunc [] None false] [mkif None [] [(c07_f, KFunc (mkid 2 0))]] [] [].
+Definition c07_rk : ranking := mkrank (fun _ => O) (fun _ => O) (fun _ => O) (fun _ => 1%nat) (fun _ => O).
+
+Example c07_nonvacuous :
+  wf_types c07_tA c07_rk /\ wf_types c07_tB c07_rk /\
+  check 3 c07_tA (KInstance (mkid 1 1)) c07_tB (KInstance (mkid 2 0)) = Ok tt /\
+  check 3 c07_tB (KInstance (mkid 2 0)) c07_tA (KInstance (mkid 1 1)) = Err EInstMissing /\
+  (exists ta tb, unfold 3 c07_tA (KInstance (mkid 1 1)) = Some ta /\ unfold 3 c07_tB (KInstance (mkid 2 0)) = Some tb /\
+                 sub_b ta tb = true /\ sub_b tb ta = false).
+Proof.
+  assert (Hnd1 : NoDup [c07_f]) by (constructor; [intros [] | constructor]).
+  assert (Hnd2 : NoDup [c07_f; c07_g]).
+  { constructor; [intros [H|[]]; discriminate H | constructor; [intros [] | constructor]]. }
+  split; [|split; [|split; [|split]]].
+  - split.
+    + intros [|i] d H; discriminate H.
+    + intros [|i] x H; discriminate H.
+    + intros [|[|i]] f H; try discriminate H. injection H as <-. split; [constructor | intros v []].
+    + intros [|[|[|i]]] x H; try discriminate H; injection H as <-; (split; [assumption|]);
+        intros k Hin; cbn in Hin; repeat destruct Hin as [<-|Hin]; try destruct Hin; cbn; repeat split; auto.
+    + intros [|i] x H; discriminate H.
+    + intros [|i] x H; discriminate H.
+  - split.
+    + intros [|i] d H; discriminate H.
+    + intros [|i] x H; discriminate H.
+    + intros [|[|i]] f H; try discriminate H. injection H as <-. split; [constructor | intros v []].
+    + intros [|[|i]] x H; try discriminate H; injection H as <-; (split; [assumption|]);
+        intros k Hin; cbn in Hin; repeat destruct Hin as [<-|Hin]; try destruct Hin; cbn; repeat split; auto.
+    + intros [|i] x H; discriminate H.
+    + intros [|i] x H; discriminate H.
+  - vm_compute. reflexivity.
+  - vm_compute. reflexivity.
+  - eexists. eexists. split; [vm_compute; reflexivity|]. split; [vm_compute; reflexivity|]. split; vm_compute; reflexivity.
+Qed.
